@@ -50,7 +50,13 @@ theorem swappedE_proj (x : ResE (Bool × Arg) Arg) : (swappedE x).toRes = swappe
   | err e t => rfl
   | panic => rfl
 
-theorem neutralizeRawE_proj (a : Arg) : (neutralizeRawE a).toRes = neutralizeRaw a := by
+theorem neutralizeRawE_proj : ∀ a : Arg, (neutralizeRawE a).toRes = neutralizeRaw a := by
+  apply Arg.negNegInd
+  rotate_left
+  · intro w ih
+    simp only [neutralizeRawE, neutralizeRaw]
+    rw [swappedE_proj, ih]
+  intro a hnn
   cases a with
   | bin op l r =>
     cases op <;> try (simp only [neutralizeRawE, neutralizeRaw]; exact neutralizeBinE_proj _ _ _)
@@ -63,11 +69,13 @@ theorem neutralizeRawE_proj (a : Arg) : (neutralizeRawE a).toRes = neutralizeRaw
     · rw [swappedE_proj, neutralizeBinE_proj]
     · exact neutralizeBinE_proj _ _ _
   | neg v =>
-    cases v <;> try rfl
-    rename_i op x y
-    cases op <;> try rfl
-    simp only [neutralizeRawE, neutralizeRaw]
-    rw [swappedE_proj, neutralizeBinE_proj]
+    cases v with
+    | bin op x y =>
+      cases op <;> try rfl
+      simp only [neutralizeRawE, neutralizeRaw]
+      rw [swappedE_proj, neutralizeBinE_proj]
+    | neg w => exact absurd rfl (hnn w)
+    | _ => rfl
   | _ => rfl
 
 theorem neutralizeE_proj_both :
@@ -229,6 +237,13 @@ theorem simplifyRawE_proj (a : Arg) : (simplifyRawE a).toRes = simplifyRaw a := 
         | err e t => rfl
         | panic => rfl
       all_goals rfl
+    | neg w =>
+      simp only
+      rw [← neutralizeRawE_proj (.neg (.neg w))]
+      cases neutralizeRawE (.neg (.neg w)) with
+      | ok p => rfl
+      | err e t => rfl
+      | panic => rfl
     | _ => rfl
   | not v =>
     simp only [simplifyRawE, simplifyRaw]
